@@ -806,8 +806,33 @@ def protectIfUnchanged (X : Ctx) (d : AttrDecl) (self : Ref) (cdnc : Bool) (v : 
   if inplace || d.dnc || cdnc || v = .sc .missing || v != cur then pure v
   else protect X v
 
-/-- `UpdateAttrMethod.update_attr`. -/
-def updateAttr (X : Ctx) (self : Ref) (a : Nat) (v : Ref) (kw : List (Nat × Ref))
+/-- The current value of attribute `a` of `self` when it is an instance of a class-level
+`do_not_copy=True` spec class (read off the heap; `none` otherwise). -/
+def dncValue? (X : Ctx) (h : Heap) (self : Ref) (a : Nat) : Option Ref :=
+  match self with
+  | .obj i =>
+    match h[i]? with
+    | some (.inst _ _ fs) =>
+      match alGet a fs with
+      | some (.obj j) =>
+        match h[j]? with
+        | some (.inst c _ _) => if (X.cd c).dnc then some (.obj j) else none
+        | _ => none
+      | _ => none
+    | _ => none
+  | .sc _ => none
+
+/-- `_uncopied_value_guard(attr_spec, instance)` (scalar.py, 6848228): a nested value of a
+`do_not_copy` class is edited in place by `update_<attr>`/`transform_<attr>`; its dict is
+restored when anything inside raises. -/
+def uncopiedGuard {α} (X : Ctx) (self : Ref) (a : Nat) (body : M α) : M α := do
+  let h ← getHeap
+  match dncValue? X h self a with
+  | some v => rollbackOnError v body
+  | none => body
+
+/-- `UpdateAttrMethod._update_attr` (the part inside the guard). -/
+def updateAttrCore (X : Ctx) (self : Ref) (a : Nat) (v : Ref) (kw : List (Nat × Ref))
     (inplace : Bool) : M Ref := do
   let p ← getInst self
   match (X.cd p.2.1).attr? a with
@@ -818,8 +843,8 @@ def updateAttr (X : Ctx) (self : Ref) (a : Nat) (v : Ref) (kw : List (Nat × Ref
     let v2 ← protectIfUnchanged X d self (X.cd p.2.1).dnc v1 inplace
     withAttr X self a v2 [] inplace
 
-/-- `TransformAttrMethod.transform_attr`. -/
-def transformAttr (X : Ctx) (self : Ref) (a : Nat) (f : Option Cb) (kwf : List (Nat × Cb))
+/-- `TransformAttrMethod._transform_attr` (the part inside the guard). -/
+def transformAttrCore (X : Ctx) (self : Ref) (a : Nat) (f : Option Cb) (kwf : List (Nat × Cb))
     (inplace : Bool) : M Ref := do
   let p ← getInst self
   match (X.cd p.2.1).attr? a with
@@ -832,6 +857,16 @@ def transformAttr (X : Ctx) (self : Ref) (a : Nat) (f : Option Cb) (kwf : List (
       attrTransforms := kwf }
     let v2 ← protectIfUnchanged X d self (X.cd p.2.1).dnc v1 inplace
     withAttr X self a v2 [] inplace
+
+/-- `UpdateAttrMethod.update_attr`. -/
+def updateAttr (X : Ctx) (self : Ref) (a : Nat) (v : Ref) (kw : List (Nat × Ref))
+    (inplace : Bool) : M Ref :=
+  uncopiedGuard X self a (updateAttrCore X self a v kw inplace)
+
+/-- `TransformAttrMethod.transform_attr`. -/
+def transformAttr (X : Ctx) (self : Ref) (a : Nat) (f : Option Cb) (kwf : List (Nat × Cb))
+    (inplace : Bool) : M Ref :=
+  uncopiedGuard X self a (transformAttrCore X self a f kwf inplace)
 
 /-- `ResetAttrMethod.reset_attr`. -/
 def resetAttr (X : Ctx) (self : Ref) (a : Nat) (inplace : Bool) : M Ref :=
